@@ -258,6 +258,57 @@ Definition spec_oc_slice (t : table) (now : Z) (ru : rule) (vs : list rec) (judg
                                                     | None => true
                                                     end) vs)))).
 
+(* ---- a model type with a COMPOSITE primary key (id, region): the key is the PAIR ------------------------ *)
+Definition same_key (a b : rec) : bool := (r_id a =? r_id b) && String.eqb (r_name a) (r_name b).
+Definition cothers (v : rec) (t : table) : table := filter (fun r => negb (same_key v r)) t.
+Definition crow (t : table) (v : rec) : option rec := find (same_key v) t.
+Definition cdata : list col := [CAge; CEmail].
+(* Save stores the full value under its (id, region); a row sharing only one key member is untouched *)
+Definition spec_csave (t : table) (v : rec) (o : obs) : bool :=
+  negb (o_err o)
+  && match crow (o_tbl o) v with Some row => same_on cdata row v | None => false end
+  && tbl_eqb (cothers v t) (cothers v (o_tbl o))
+  && (length (o_tbl o) =? length t + (match crow t v with Some _ => 0 | None => 1 end))%nat.
+Definition spec_cslice (t : table) (vs : list rec) (o : obs) : bool :=
+  negb (o_err o)
+  && forallb (fun v => match crow (o_tbl o) v with Some row => same_on cdata row v | None => false end) vs
+  && tbl_eqb (filter (fun r => negb (existsb (fun v => same_key v r) vs)) t)
+             (filter (fun r => negb (existsb (fun v => same_key v r) vs)) (o_tbl o)).
+Fixpoint ccoll_ok (ru : rule) (v old row : rec) : bool :=
+  match ru with
+  | RNothing => rec_eqb row old
+  | RUpdates cols => forallb (fun c => val_eqb (get_col c row)
+                                         (if mem_col c cols then get_col c v else get_col c old)) all_cols
+  | RAll => same_on cdata row v
+  | RWhere k r => if r_age old <? k then ccoll_ok r v old row else rec_eqb row old
+  | RTarget _ r => ccoll_ok r v old row
+  end.
+Definition spec_cupsert (t : table) (ru : rule) (v : rec) (o : obs) : bool :=
+  negb (o_err o)
+  && tbl_eqb (cothers v t) (cothers v (o_tbl o))
+  && match crow t v, crow (o_tbl o) v with
+     | None, Some row => rec_eqb row v && (o_ra o =? 1)
+     | Some old, Some row => ccoll_ok ru v old row
+     | _, None => false
+     end.
+Definition spec_cfoc (t : table) (id : Z) (region : string) (a : option string) (q : option Z) (o : obs) : bool :=
+  let probe := mk_rec id region 0 "" 0 0 None in
+  negb (o_err o) && (o_writes o <=? 1)
+  && tbl_eqb (cothers probe t) (cothers probe (o_tbl o))
+  && match crow t probe, crow (o_tbl o) probe with
+     | Some r, Some row =>
+         rec_eqb row (o_ret o)
+         && match q with
+            | None => rec_eqb row r && (o_writes o =? 0)
+            | Some z => (r_age row =? z) && String.eqb (r_email row) (r_email r)
+            end
+     | None, Some row =>
+         rec_eqb row (o_ret o)
+         && (r_age row =? match q with Some z => z | None => 0 end)
+         && String.eqb (r_email row) (match a with Some n => n | None => "" end)
+     | _, None => false
+     end.
+
 Definition spec_step (t : table) (now : Z) (ch : list cel) (f : fin) (o : obs) : bool :=
   match f with
   | FSave v => spec_save t v o
@@ -267,6 +318,10 @@ Definition spec_step (t : table) (now : Z) (ch : list cel) (f : fin) (o : obs) :
   | FSaveSlice _ => false       (* needs the slice handed back: see spec_case *)
   | FSaveOmit os v => spec_save_omit t os v o
   | FCreateU ru tgt v => spec_upsert_u t now ru tgt v o
+  | FCSave v => spec_csave t v o
+  | FCSaveSlice vs => spec_cslice t vs o
+  | FCCreateOC ru v => spec_cupsert t ru v o
+  | FCFoc id region a q => spec_cfoc t id region a q o
   | FCreateOCSlice ru _ vs => spec_oc_slice t now ru vs true o
   end.
 
@@ -324,7 +379,8 @@ Definition in_domain (ch : list cel) (f : fin) : bool :=
       kv_alone (ch_attrs ch) && kv_alone (ch_assigns ch)
       && conds_typed (ch_conds ch ++ ic) && args_typed (ch_attrs ch) && args_typed (ch_assigns ch)
       && conds_dom (ch_conds ch ++ ic) && args_data (ch_attrs ch) && args_data (ch_assigns ch)
-  | FSaveSlice _ | FSaveOmit _ _ | FCreateU _ _ _ | FCreateOCSlice _ _ _ => false   (* not covered by model_meets_spec; own domains below *)
+  | FSaveSlice _ | FSaveOmit _ _ | FCreateU _ _ _ | FCreateOCSlice _ _ _
+  | FCSave _ | FCSaveSlice _ | FCCreateOC _ _ | FCFoc _ _ _ _ => false   (* not covered by model_meets_spec; own domains below *)
   end.
 (* Save of a slice: the non-zero keys are distinct *)
 Definition slice_dom (f : fin) : bool :=
@@ -332,9 +388,15 @@ Definition slice_dom (f : fin) : bool :=
   | FSaveSlice vs => distinctb (filter (fun k => negb (k =? 0)) (map r_id vs))
   | FSaveOmit os _ => negb (existsb (col_eqb CId) os)      (* the key is never omitted *)
   | FCreateU _ _ _ => true
+  | FCSave _ | FCCreateOC _ _ | FCFoc _ _ _ _ => true
+  | FCSaveSlice vs => (fix nodup (l : list rec) : bool :=
+                         match l with [] => true | v :: r => negb (existsb (same_key v) r) && nodup r end) vs
   | FCreateOCSlice _ _ vs => distinctb (filter (fun k => negb (k =? 0)) (map r_id vs))
   | _ => false
   end.
+
+Definition is_composite (f : fin) : bool :=
+  match f with FCSave _ | FCSaveSlice _ | FCCreateOC _ _ | FCFoc _ _ _ _ => true | _ => false end.
 
 (* keys strictly increasing: the table as the harness dumps it (ORDER BY id) *)
 Fixpoint sortedb (t : table) : bool :=
